@@ -41,7 +41,7 @@ TIMEOUT = {'quick': 900, 'thorough': 3600}
 
 KINDS = {'A': (1, 1, 1), 'B': (1, 4, 3), 'C': (1, 0, 9), 'D': (0, 2, 3)}
 B3 = ['B1', 'B3', 'B5']
-AXES_A = {'n_data_min': [2, 1, 3], 'sel': [('A', 0), ('N', 2), ('F', 3.0), ('N', 0), ('C', 1e-6)], 'conv': [True, False], 'fmt': ['v1', 'v2'], 'mode': ['2d', '3d'], 'law': ['power', 'nonmono@nm'], 'n_models': [5, 1]}
+AXES_A = {'n_data_min': [2, 1, 3, 0], 'sel': [('A', 0), ('N', 2), ('F', 3.0), ('N', 0), ('C', 1e-6)], 'conv': [True, False], 'fmt': ['v1', 'v2'], 'mode': ['2d', '3d'], 'law': ['power', 'nonmono@nm'], 'n_models': [5, 1]}
 SELS_B = [('N', 1), ('N', 3), ('A', 0), ('F', 2.0)]
 
 
@@ -377,7 +377,7 @@ def _part_c(ctx, case, rec, d):
     from sedfitter.fit_info import FitInfoFile
     from props import C19
     meta = C19._meta(d)
-    kinds = ['f0', 'f1m', 'f3mx', 'f3x', 'f1L']
+    kinds = ['f0', 'f1m', 'f3mx', 'f3x', 'f1L', 'f3mW']
     n = 0
     for L in (1, 2, 3):
         for seq in itertools.product(kinds, repeat=L):
